@@ -18,7 +18,8 @@ of minimum-length walks through a node / along a connection.
 for statement: matrix powers `NPd`/`NSPd` and the back-propagation `DP` of `betweenness_bin`; the
 Dijkstra / BFS loops with predecessor matrix `P`, path counts `NP`, reverse-order queue `Q`
 (unreachable nodes first, `Q[:q+1] = where(...)` with NumPy's length-1 broadcast rule) and the
-dependency accumulation of `betweenness_wei`, `edge_betweenness_wei`, `edge_betweenness_bin`.
+dependency accumulation of `edge_betweenness_wei`, `edge_betweenness_bin` (`brandes`) and, separately and
+without the `EBC` accumulation, of `betweenness_wei` (`betweennessWei`).
 `Props/C08.lean` proves each of them equal to `bcSpec` / `ebcSpec` on its domain.
 -/
 namespace Bct.Between
@@ -325,12 +326,58 @@ def sources {n} (wei : Bool) (G : AMat Nat n) : List (Fin n) → Acc n → Excep
     let a ← source wei G a u
     sources wei G us a
 
-/-- `edge_betweenness_wei` (and `betweenness_wei`, which is the same loop without `EBC`) when
-`wei = true`, `edge_betweenness_bin` when `wei = false`; returns `(EBC, BC)` -/
+/-- `edge_betweenness_wei` when `wei = true` (`betweenness_wei` has its own model `betweennessWei`), `edge_betweenness_bin` when `wei = false`; returns `(EBC, BC)` -/
 def brandes {n} (wei : Bool) (G : AMat Nat n) : Except BErr (AMat Rat n × Vector Rat n) := do
   let a ← sources wei G (List.finRange n)
     { BC := Vector.ofFn fun _ => 0, EBC := AMat.ofFn fun _ _ => 0, DP := Vector.ofFn fun _ => 0 }
   return (a.EBC, a.BC)
+
+/-! ### `betweenness_wei`: the node routine has its own loop, without the `EBC` accumulation
+
+The forward pass of `betweenness_wei` is textually the one of `edge_betweenness_wei` (`weiLoop`);
+its back-propagation is `DP[v] += (1 + DP[w]) * NP[v] / NP[w]` with no `EBC`. -/
+
+structure AccN (n : Nat) where
+  BC : Vector Rat n
+  DP : Vector Rat n
+
+/-- `for v in np.where(P[w, :])[0]: DP[v] += (1 + DP[w]) * NP[v] / NP[w]` -/
+def backInnerN {n} (st : SrcSt n) (w : Fin n) : List (Fin n) → AccN n → Except BErr (AccN n)
+  | [], a => .ok a
+  | v :: vs, a =>
+    if st.NP[w] = 0 then .error .unsupported else
+    backInnerN st w vs
+      { a with DP := a.DP.set v (a.DP[v] + (1 + a.DP[w]) * (st.NP[v] : Rat) / (st.NP[w] : Rat)) }
+
+/-- `for w in Q[:n-1]: BC[w] += DP[w]; …` -/
+def backOuterN {n} (st : SrcSt n) : List Nat → AccN n → Except BErr (AccN n)
+  | [], a => .ok a
+  | wn :: ws, a =>
+    if h : wn < n then
+      match backInnerN st ⟨wn, h⟩ ((List.finRange n).filter fun v => st.P.get ⟨wn, h⟩ v)
+          { a with BC := a.BC.set (⟨wn, h⟩ : Fin n) (a.BC[(⟨wn, h⟩ : Fin n)] + a.DP[(⟨wn, h⟩ : Fin n)]) } with
+      | .error e => .error e
+      | .ok a1 => backOuterN st ws a1
+    else .error .unsupported
+
+def sourceN {n} (G : AMat Nat n) (bc : Vector Rat n) (u : Fin n) : Except BErr (Vector Rat n) :=
+  match weiLoop (n + 1) [u] (initSt true G u) with
+  | .error e => .error e
+  | .ok st =>
+    match backOuterN st (st.Q.toList.take (n - 1)) { BC := bc, DP := Vector.ofFn fun _ => 0 } with
+    | .error e => .error e
+    | .ok a => .ok a.BC
+
+def sourcesN {n} (G : AMat Nat n) : List (Fin n) → Vector Rat n → Except BErr (Vector Rat n)
+  | [], bc => .ok bc
+  | u :: us, bc =>
+    match sourceN G bc u with
+    | .error e => .error e
+    | .ok bc1 => sourcesN G us bc1
+
+/-- `betweenness_wei` -/
+def betweennessWei {n} (G : AMat Nat n) : Except BErr (Vector Rat n) :=
+  sourcesN G (List.finRange n) (Vector.ofFn fun _ => 0)
 
 /-! ## driver -/
 
@@ -381,9 +428,9 @@ def step (line : String) : String :=
       | .error e => some s!"error={e.str}"
       | .ok bc => some s!"bc={showVecR bc}"
     else if op == "betweenness_wei" then
-      match brandes true L with
+      match betweennessWei L with
       | .error e => some s!"error={e.str}"
-      | .ok (_, bc) => some s!"bc={showVecR bc}"
+      | .ok bc => some s!"bc={showVecR bc}"
     else if op == "edge_betweenness_wei" then
       match brandes true L with
       | .error e => some s!"error={e.str}"
